@@ -229,7 +229,16 @@ def run_query(sc, q, args):
         cb += ['--unwindset', ','.join(q['unwindset'])]
     cb += q.get('cbmc', [])
     timeout = q.get('timeout', 600) * float(os.environ.get('VF_TIMEOUT_SCALE', '1'))
+    if os.environ.get('VF_SOLVER') and not q.get('solver'):
+        q = dict(q, solver=os.environ['VF_SOLVER'])
+    if q.get('solver'):
+        cb += ['--sat-solver', q['solver']]
     rc, out, err, to, dt = sh(cb, timeout=timeout, mem_gb=float(os.environ.get('VF_MEM_GB', q.get('mem_gb', 12))))
+    if to and not q.get('solver'):
+        # MiniSat (CBMC's default) has runtime cliffs on some instances; CaDiCaL decides them in seconds - one retry, same bound, same budget
+        res['notes'].append('MiniSat exceeded %ds; retried with --sat-solver cadical' % int(timeout))
+        rc, out, err, to, dt2 = sh(cb + ['--sat-solver', 'cadical'], timeout=timeout, mem_gb=float(os.environ.get('VF_MEM_GB', q.get('mem_gb', 12))))
+        dt += dt2
     res['cbmc_s'] = round(dt, 2)
     if to:
         res['status'] = 'TIMEOUT'
@@ -430,7 +439,7 @@ def cmd_check(args):
     for r in results[:40]:
         samples.append({'query': r['id'], 'harness': r['src'], 'defs': r['defs'], 'unwind': r['unwind'], 'unwindset': r['unwindset'],
                         'status': r['status'], 'obligations': r['obligations'], 'witness_input': r['sample'],
-                        'solver_s': round(r['solver_s'], 2), 'wall_s': r['wall_s']})
+                        'solver_s': round(r['solver_s'], 2), 'wall_s': r['wall_s'], 'notes': r['notes'][:2]})
     ev = {
         'property_id': pid, 'tier': tier, 'seed': seed, 'level': meta.get('level', 'model_checking'),
         'coverage': {
